@@ -313,6 +313,12 @@ def gen_marker(seed, big):
     out.append((dict(cfg(), mode='clean', source=src, ds='<', de='>'), (lambda s: lambda r: None if r.get('ok') and r.get('output') == s else 'element with skip and unwrap-block was changed')(src)))
     src = f"A\n<{TL} to='{PAST}' skip>\nB\n</{TL}>\nC\n"
     out.append((dict(cfg(), mode='clean', source=src, ds='<', de='>'), (lambda s: lambda r: None if r.get('ok') and r.get('output') == s else 'expired element with skip was removed')(src)))
+    # skip protects the element itself ("on its own account"), not the ready elements nested in it
+    for skipper in (f"{TL} to='{PAST}' skip", f"{RM} name='f1' skip", f"{RM} skip='yes' name='zz'", "section skip"):
+        close = skipper.split(' ')[0]
+        src = f"top\n<{skipper}>\nkeep\n<{RM} name='f1'>\ngone\n</{RM}>\ntail\n</{close}>\nend\n"
+        exp = f"top\n<{skipper}>\nkeep\ntail\n</{close}>\nend\n"
+        out.append((dict(cfg(), mode='clean', source=src, ds='<', de='>'), (lambda e, k: lambda r: None if r.get('ok') and r.get('output') == e else f'a targeted element nested in an element with skip [{k}] must still be removed, the skipped element itself stays: ' + json.dumps(r, ensure_ascii=False)[:200])(exp, skipper)))
     src = doc("name='f1' to='%s'" % PAST, tag='other-tag')
     out.append((dict(cfg(), mode='clean', source=src, ds='<', de='>'), (lambda s: lambda r: None if r.get('ok') and r.get('output') == s else 'unregistered tag name was removed')(src)))
     return out
@@ -942,6 +948,77 @@ def gen_opaque_decisions(seed, big):
     return out
 
 
+def gen_tag_whitespace(seed, big):
+    """C02/C04/C06: inside a tag only spaces and line breaks separate words. A tab, CR, U+3000 or U+00A0 between the tag
+    name and the first attribute is part of the NAME (an unregistered name: never ready); behind an unquoted value only a
+    space ends the value, so a line break glues the next attribute to it. Nothing is ready: the output is the input."""
+    out = []
+    for ds, de in (('<', '>'), ('<!--', '-->'), ('/* <', '> */')):
+        pad = '' if ds == '<' else ' '
+        for sep in ('\t', '\u3000', '\u00a0', '\r', '\x0c'):
+            docs = [f"before\n{ds}{pad}{TL}{sep}to='{PAST}'{pad}{de}\nkeep_me();\n{ds}{pad}/{TL}{pad}{de}\nafter\n",
+                    f"before\n{ds}{pad}{RM}{sep}name='f1'{pad}{de}\nkeep_me();\n{ds}{pad}/{RM}{pad}{de}\nafter\n",
+                    f"a {ds}{pad}{RM} c=\"x\"{sep}name='f1'{pad}{de}keep{ds}{pad}/{RM}{pad}{de} b\n"]
+            for src in docs:
+                out.append((dict(cfg(), mode='clean', source=src, ds=ds, de=de),
+                            (lambda s_, q: lambda r: None if r.get('ok') and r.get('output') == s_ else f'{q!r} inside a tag is not a separator: the tag name / attribute is a different one and nothing is ready, yet the output differs from the input: ' + json.dumps(r, ensure_ascii=False)[:200])(src, sep)))
+        for src in (f"before\n{ds}{pad}{TL} rev=12\nto='{PAST}'{pad}{de}\nkeep_me();\n{ds}{pad}/{TL}{pad}{de}\nafter\n",
+                    f"before\n{ds}{pad}{RM} rev=12\nname='f1'{pad}{de}\nkeep_me();\n{ds}{pad}/{RM}{pad}{de}\nafter\n"):
+            out.append((dict(cfg(), mode='clean', source=src, ds=ds, de=de),
+                        (lambda s_: lambda r: None if r.get('ok') and r.get('output') == s_ else 'an unquoted value ends at a space only; the attribute behind the line break is part of it and nothing is ready, yet the output differs from the input: ' + json.dumps(r, ensure_ascii=False)[:200])(src)))
+    return out
+
+
+def gen_closer_attrs(seed, big):
+    """C03/C10: a closing tag is recognised by its NAME (`/name`); words behind the name do not stop it from closing"""
+    out = []
+    cases = [(('<', '>'), f"foo<{TL} to='{PAST}'>bar</{TL} end>baz", 'foobaz'),
+             (('<!--', '-->'), f"a\n<!-- {TL} to=\"{PAST}\" -->\n  <p>SECRET</p>\n<!-- /{TL} campaign-2019 -->\nb\n", 'a\nb\n'),
+             (('/* <', '> */'), f"x /* <{RM} name=\"f1\"> */ legacy(); /* </{RM} name=\"f1\"> */ y\n", None),
+             (('<', '>'), f"p\n<{RM} name='zz'>\n<{RM} name='f1'>\nold\n</{RM} x='1'>\nkeep\n</{RM} skip>\nq\n", f"p\n<{RM} name='zz'>\nkeep\n</{RM} skip>\nq\n")]
+    for (ds, de), src, exp in cases:
+        def oracle(r, exp=exp, src=src):
+            if not r.get('ok'):
+                return 'clean panicked: ' + str(r.get('panic'))[:160]
+            o = r['output']
+            if exp is not None and o != exp:
+                return f'a closing tag with words behind its name must still close its element: output {o!r}, expected {exp!r}'
+            if exp is None and ('legacy' in o or RM in o):
+                return f'a closing tag with words behind its name must still close its element: output {o!r}'
+            return None
+        out.append((dict(cfg(), mode='clean', source=src, ds=ds, de=de), oracle))
+    return out
+
+
+ENV_ODD = {'NO_COLOR': '1', 'CLICOLOR': '0', 'CLICOLOR_FORCE': '0', 'TERM': 'dumb', 'TZ': 'Pacific/Kiritimati', 'LANG': 'ja_JP.UTF-8', 'LC_ALL': 'C'}
+
+
+def gen_env_independent_list(seed, big):
+    """C15, purity clause: the listing does not depend on the process environment (NO_COLOR, CLICOLOR, TERM, TZ, LANG):
+    the listing cases again, in a driver process started with such variables"""
+    return [(dict(req, env=ENV_ODD), orc) for req, orc in gen_list_regions(seed, big)[:(80 if big else 30)]]
+
+
+def gen_env_independent_expiry(seed, big):
+    """C05: the expiry decision depends on the configured instant and offset only, not on TZ / LANG of the process"""
+    return [(dict(req, env=ENV_ODD), orc) for req, orc in gen_expiry(seed, big)[:(60 if big else 24)]]
+
+
+def gen_recognition_entry(seed, big):
+    """C08 at the entry points: clean scans for the delimiters exactly as configured - leading / trailing blanks of a
+    delimiter are part of it. Tags written without those blanks are not tags (output == input); tags written with them are."""
+    out = []
+    for ds, de in (('<!-- ', ' -->'), ('< ', ' >'), ('/* ', ' */'), ('\t<', '>\t')):
+        tight = (ds.strip(), de.strip())
+        src = f"a\n{tight[0]}{RM} name=\"f1\"{tight[1]}\nb\n{tight[0]}/{RM}{tight[1]}\nc\n"
+        out.append((dict(cfg(), mode='clean', source=src, ds=ds, de=de),
+                    (lambda s_, d: lambda r: None if r.get('ok') and r.get('output') == s_ else f'with delimiters {d!r} a tag written without the blanks of the delimiters is not a tag, yet the output differs from the input: ' + json.dumps(r, ensure_ascii=False)[:200])(src, (ds, de))))
+        src2 = f"a\n{ds}{RM} name=\"f1\"{de}\nb\n{ds}/{RM}{de}\nc\n"
+        out.append((dict(cfg(), mode='clean', source=src2, ds=ds, de=de),
+                    (lambda d: lambda r: None if r.get('ok') and 'b' not in r.get('output', 'b') and RM not in r.get('output', RM) else f'with delimiters {d!r} a targeted element written with exactly these delimiters must be removed: ' + json.dumps(r, ensure_ascii=False)[:200])((ds, de))))
+    return out
+
+
 def gen_blanklines(seed, big):
     """C13: block-style removal with b blank lines before and a after leaves a+b-[a>0 and b>0] blank lines; lines intact"""
     out = []
@@ -971,8 +1048,8 @@ def gen_lines_intact(seed, big):
     also when the file starts with empty lines (the indented tag is then on line 2 or later)"""
     out = []
     for k in (1, 2):
-        for ind in ('  ', '\t', '    '):
-            for ind2 in ('', '  ', '\t'):
+        for ind in ('  ', '\t', '    ', ' \t', '\t \t', '  \t\t'):
+            for ind2 in ('', '  ', '\t', ' \t'):
                 for a in (0, 1, 2):
                     for blank in ('', ' ', '\t'):
                         src = '\n' * k + ind + f"<{RM} name='f1'>\n" + ind + '  gone\n' + ind + f"</{RM}>\n" + (blank + '\n') * a + ind2 + 'keep(); é\n'
@@ -987,7 +1064,7 @@ def gen_lines_intact(seed, big):
     # runs of 2-5 removed sibling blocks on directly adjacent lines (their tidy intervals chain up), indented or not,
     # at top level or inside a pending parent; the lines around the run survive byte for byte
     for n in (2, 3, 4, 5):
-        for ind in ('', '  ', '\t'):
+        for ind in ('', '  ', '\t', ' \t'):
             for parent in (False, True):
                 for sep in ('', '\n'):
                     blocks = []
@@ -1147,7 +1224,7 @@ def gen_pairing(seed, big):
     if not big:
         rnd.shuffle(seqs2); seqs2 = seqs2[:1200]
     seqs += seqs2
-    long_alpha = alphabet + ['<a x="1">', '<c>', '</c>', '<//a>', '<ab>', '</ab>', '<ba>', '</ba>', '<aa>', '</aa>']
+    long_alpha = alphabet + ['<a x="1">', '<c>', '</c>', '<//a>', '</a x>', '</b y="1">', '<ab>', '</ab>', '<ba>', '</ba>', '<aa>', '</aa>']
     for _ in range(600 if big else 200):
         n = rnd.randint(6, 14)
         tup = []
@@ -1248,9 +1325,9 @@ def _back_same(t, d):
 
 
 GENERATORS = {
-    'C01': [gen_totality], 'C04': [gen_identity, gen_identity_unwrappable, gen_identity_unrecognised, gen_identity_unexpired, gen_identity_decisions], 'C07': [gen_partition], 'C08': [gen_recognition], 'C05': [gen_expiry], 'C06': [gen_marker],
-    'C09': [gen_grammar, gen_opaque_decisions], 'C10': [gen_pairing], 'C02': [gen_blocks, gen_inline, gen_nested_text_survives, gen_unwrap_crlf_text, gen_odd_whitespace_lines], 'C03': [gen_blocks, gen_inline, gen_nested_text_survives, gen_unwrap_crlf_text], 'C11': [gen_blocks, gen_unwrap_wrappers, gen_unwrap_four_lines, gen_identity_unwrappable, gen_unwrap_crlf_text], 'C17': [gen_list_all],
-    'C12': [gen_dedent, gen_dedent_nested, gen_dedent_crlf], 'C13': [gen_blanklines, gen_lines_intact, gen_odd_whitespace_lines], 'C14': [gen_inline, gen_dedent_nested, gen_unwrap_lines_intact, gen_unwrap_lines_intact_crlf], 'C15': [gen_list_regions],
+    'C01': [gen_totality], 'C04': [gen_identity, gen_identity_unwrappable, gen_identity_unrecognised, gen_identity_unexpired, gen_identity_decisions, gen_tag_whitespace], 'C07': [gen_partition], 'C08': [gen_recognition, gen_recognition_entry], 'C05': [gen_expiry, gen_env_independent_expiry], 'C06': [gen_marker, gen_tag_whitespace],
+    'C09': [gen_grammar, gen_opaque_decisions], 'C10': [gen_pairing], 'C02': [gen_blocks, gen_inline, gen_nested_text_survives, gen_unwrap_crlf_text, gen_odd_whitespace_lines, gen_tag_whitespace], 'C03': [gen_blocks, gen_inline, gen_nested_text_survives, gen_unwrap_crlf_text, gen_closer_attrs], 'C11': [gen_blocks, gen_unwrap_wrappers, gen_unwrap_four_lines, gen_identity_unwrappable, gen_unwrap_crlf_text], 'C17': [gen_list_all],
+    'C12': [gen_dedent, gen_dedent_nested, gen_dedent_crlf], 'C13': [gen_blanklines, gen_lines_intact, gen_odd_whitespace_lines], 'C14': [gen_inline, gen_dedent_nested, gen_unwrap_lines_intact, gen_unwrap_lines_intact_crlf], 'C15': [gen_list_regions, gen_env_independent_list],
 }
 
 GENERATORS['C01'] = GENERATORS['C01'] + [gen_totality_everywhere]
